@@ -60,8 +60,8 @@ def run(ctx):
         "GridEvery": (3 if grid_g == 2 else 40) if q else 3,
         "GridOff": 0,
         "RealKinds": set(range(1, 16)),
-        "RealPlaces": set(rnd.sample(range(1, 64), 12)) if q else set(range(1, 64)),
-        "RealSizes": set(rnd.sample(range(12), 5)) if q else set(range(12)),
+        "RealPlaces": set(rnd.sample(range(1, 64), 24)) if q else set(range(1, 64)),
+        "RealSizes": set(rnd.sample(range(12), 8)) if q else set(range(12)),
         "RealEvery": 12 if q else 2,
         "RectEvery": 40 if q else 3,
         "RectOff": rnd.randrange(3),
